@@ -285,6 +285,13 @@ pub fn run_par(a: &Args) {
         if focus_dom { s.w = WE::F(*rng.pick(&[1usize, 2, 2])); }
         if focus_dedup { s.nodup = true; s.cache = false; s.kind = *rng.pick(&[0usize, 1, 1, 1, 2]); s.w = WE::F(*rng.pick(&[1usize, 2, 2, 2, 3])); }
         if rng.chance(1, 6) { if let Some(p) = random_solution(&fam, &mut rng) { s.primal = Some(p); } }
+        // focus-dedup: often start from a good incumbent (the best of 40 random solutions), so that "top bound <= incumbent =>
+        // drop the fringe" fires early, with a non-empty fringe, while other workers still hold nodes
+        if focus_dedup && rng.chance(1, 2) {
+            let mut best: Option<(isize, Vec<(usize, isize)>)> = None;
+            for _ in 0..40 { if let Some(p) = random_solution(&fam, &mut rng) { if best.as_ref().map_or(true, |b| p.0 > b.0) { best = Some(p); } } }
+            if best.is_some() { s.primal = best; }
+        }
         // cutoffs: early ones (the first compilations) and late ones (several workers hold nodes, the incumbent has moved
         // since they read it: the abort bound must still cover the optimum)
         if cutoff { s.stop_at = Some(if rng.chance(1, 2) { rng.range(1, 14) } else { rng.range(10, 40) } as usize); }
